@@ -371,9 +371,51 @@ def static_plan(prop, pools_quick, pools_thorough, floors):
     return plan
 
 
+# ------------------------------------------------------------------------------------------ robustness
+def c05_plan(run, replay=None):
+    q = run.tier == "quick"
+    run.build_harness()
+    if replay:
+        r = json.load(open(replay))
+        raise vcore.Infra("C05 replay files carry the failing bytes (hex) and the plan entry; re-run bin/check C05 with the same "
+                          "VERIF_SEED (%s) to reproduce: %s" % (r.get("seed"), r.get("what")))
+    # 1. the fault plan
+    run.tlc("RobustnessMC", "C05_plan.cfg", "design", workers=4, cases_out="plan.ndjson")
+    s = run.harness("robust", ["-in", "plan.ndjson", "-out", "robust.ndjson", "-n", 60 if q else 3000, "-seed", run.seed], timeout=3400)
+    run.load_inputs("robust.ndjson.inputs")
+    run.validate_trace("RobustnessObs", "robust.ndjson", s["cases"], timeout=600)
+    # 2. the wrong value in the wrong place (token level), static
+    for pool in (["C05q"] if q else ["C05", "C03stops", "C09pairs"]):
+        run.tlc("StaticMC", "ST_%s.cfg" % pool, "design", workers=16, cases_out="static.ndjson", timeout=2400)
+    s = run.harness("static", ["-in", "static.ndjson", "-out", "static_obs.ndjson", "-seed", run.seed], timeout=3000)
+    run.load_inputs("static_obs.ndjson.inputs")
+    run.validate_trace("GtfsStaticObs", "static_obs.ndjson", s["cases"], timeout=3000)
+    # 3. realtime messages with NYCT data under every extension configuration, hostile journals
+    run.tlc("NyctTripsMC", "C16_all.cfg", "design", workers=8, cases_out="nt.ndjson")
+    run.harness("nycttrips", ["-in", "nt.ndjson", "-out", "nt_obs.ndjson", "-origins", "none"], timeout=3000)
+    run.tlc("NyctAlertsMC", "C17_others.cfg", "design", workers=8, cases_out="na.ndjson")
+    run.tlc("NyctAlertsMC", "C17_mixed.cfg", "design", workers=8, cases_out="na.ndjson")
+    run.harness("nyctalerts", ["-in", "na.ndjson", "-out", "na_obs.ndjson"], timeout=3000)
+    run.tlc("RealtimeMC", "RT_merge_quick.cfg", "design", workers=8, cases_out="rt.ndjson")
+    run.harness("realtime", ["-in", "rt.ndjson", "-out", "rt_obs.ndjson", "-maxperm", 3], timeout=3000)
+    run.tlc("JournalMC", "C15_sim_cases.cfg", "design", workers=1, simulate=300 if q else 5000, depth=8, seed=run.seed, cases_out="j.ndjson")
+    run.harness("journal", ["-in", "j.ndjson", "-out", "j_obs.ndjson", "-gen", 20 if q else 200, "-seed", run.seed], timeout=3000)
+    only(run, ["C05."])
+    run.floor("fault_instances", run.counters.get("fault_instances", 0), 10000 if q else 500000)
+    run.counters["distinct_nontrivial"] = run.counters.get("fault_instances", 0)
+    return run.finish(
+        "fault plan entries (target x fault kind x extension configuration, enumerated by TLC) each instantiated with seeded "
+        "random positions/bytes on a corpus of well-formed inputs (quick 60, thorough 3,000 times per entry); plus every "
+        "token-level hostile case of the static, realtime, NYCT and journal pools; every call under recover() and a 10 s "
+        "watchdog, accessors swept on every returned result, parsed feeds pushed through BuildJournal and ExportToCsv",
+        ["byte strings are explored by seeded mutation under the spec's fault plan, not exhaustively (TLA+ cannot enumerate byte strings)",
+         "resource use proportional to input size is out of scope (as in the property)"], exhaustive=False)
+
+
 ZONES = "nil,UTC,America/New_York,Asia/Kolkata,fixed+0545,Pacific/Auckland,fixed-0330"
 
 PLANS = {
+    "C05": c05_plan,
     "C01": static_plan("C01", ["C01"], ["C01"], {"distinct_feeds": 200, "parses": 700}),
     "C03": static_plan("C03", ["C03stops", "C03refs"], ["C03stops", "C03refs", "C09pairs"], {"distinct_feeds": 3000}),
     "C08": static_plan("C08", ["C08"], ["C08", "C01"], {"distinct_feeds": 1000}),
